@@ -50,13 +50,18 @@ static void bootstrap_contract(LweSample *res, const LweBootstrappingKeyFFT *bk,
     res->current_variance = 0.;
     bs_calls++;
 }
+#if STUB_ON(stub_tfhe_bootstrap_FFT)
 extern "C" void STUBNAME(tfhe_bootstrap_FFT)(LweSample *res, const LweBootstrappingKeyFFT *bk, Torus32 mu, const LweSample *x) {
     bootstrap_contract(res, bk, mu, x, PLN, S, T1_32);
 }
+#endif
+#if STUB_ON(stub_tfhe_bootstrap_woKS_FFT)
 extern "C" void STUBNAME(tfhe_bootstrap_woKS_FFT)(LweSample *res, const LweBootstrappingKeyFFT *bk, Torus32 mu, const LweSample *x) {
     bootstrap_contract(res, bk, mu, x, NEXT, S2, T1_64);
 }
+#endif
 /* contract of key switching: same phase under the target key, +- 1/64 */
+#if STUB_ON(stub_lweKeySwitch)
 extern "C" void STUBNAME(lweKeySwitch)(LweSample *res, const LweKeySwitchKey *ks, const LweSample *x) {
     if (ks != the_bkfft->ks) bs_bad = 1;
     int32_t e = nondet_i32();
@@ -67,6 +72,7 @@ extern "C" void STUBNAME(lweKeySwitch)(LweSample *res, const LweKeySwitchKey *ks
     res->current_variance = 0.;
     ks_calls++;
 }
+#endif
 
 struct World {
     LweParams *lp; TLweParams *tp; TGswParams *gp; TFheGateBootstrappingParameterSet *ps;
